@@ -65,7 +65,19 @@ MkRetNest(par) ==
   IN [ts |-> <<Tm("main", "", <<>>, <<T("pre"), ExecLet("ex", "r", "early"), P("pr", Var("r")), outer, T("post")>>), early>>,
       globals |-> NoVarsMap, runs |-> <<RunR("main", NoVarsMap, "D"), RunR("main", NoVarsMap, "D")>>, tag |-> "retnest|" \o kd]
 
-MkC(par) == CASE par[1] = "retnest" -> MkRetNest(par) [] par[1] = "if1" -> MkIf1(par) [] par[1] = "chain" -> MkChain(par)
+\* the element a range binds is a value like any other: as '.', as a loop variable, in a condition or printed.
+\* Ranges over an interface slice / a string slice / a map holding false, 0, "" and truthy values; the body
+\* branches on '.' (zero-variable form) or on the loop variable
+MkRangeIf(par) ==
+  LET kind == par[2]  form == par[3]
+      els  == IF kind = "slice" THEN <<"", "x">> ELSE <<"false", "0", "", "true", "7", "x">>
+      cond == IF form = "none" THEN Ctx ELSE Var("v")
+      body == <<IfElse("bi", cond, <<T("yes")>>, <<T("no")>>), P("bp", cond)>>
+      rng  == RangeS("rg", form, "k", "v", ":=", ListE(kind, els), body)
+  IN [ts |-> <<Tm("main", "", <<>>, <<T("pre"), rng, T("post")>>)>>, globals |-> NoVarsMap,
+      runs |-> <<RunR("main", NoVarsMap, "D")>>, tag |-> "rangeif|" \o kind \o "|" \o form]
+
+MkC(par) == CASE par[1] = "rangeif" -> MkRangeIf(par) [] par[1] = "retnest" -> MkRetNest(par) [] par[1] = "if1" -> MkIf1(par) [] par[1] = "chain" -> MkChain(par)
               [] par[1] = "range" -> MkRange(par) [] par[1] = "nest" -> MkNest(par)
 
 IdxKinds == {"slice", "islice", "array", "ptrslice", "ints", "customidx"}
@@ -76,5 +88,6 @@ cParams == ({"if1"} \X CondVals \X BOOLEAN)
               /\ (p[4] = "none" => p[6] = "no") /\ (p[4] = "k" => p[6] \in {"no", "k"})
               /\ (p[2] \in {"nil", "bad"} => p[3] = 0)}
       \cup ({"retnest"} \X {"slice", "array", "map1"})
+      \cup ({"rangeif"} \X {"islice", "slice"} \X {"none", "kv"})
       \cup ({"nest"} \X IdxKinds \X (IdxKinds \ {"customidx"}) \X {TRUE})   \* a custom Ranger is a one-shot iterator
 =============================================================================
